@@ -34,6 +34,39 @@ def compared_members(f):
     return cnt
 
 
+def nsec_alternatives(P, rep, rid):
+    """every `recorded nsec == live nsec` test of scan_file opens a keep decision; the only other way into the same
+    accepting block is the recorded value being STAT_NSEC_INVALID.  Any further alternative (e.g. nsec == 0) makes a
+    file whose time-stamp changed count as unchanged."""
+    f = P.fn('scan_file')
+    live = [i for i in f.all_insts() if i.op == 'icmp' and i.pred == 'eq' and f.expr(i.ops[0]).endswith('->mtime_nsec') and 'tv_nsec' in f.expr(i.ops[1])]
+    if len(live) < 2:
+        raise AnalysisBroken('scan_file: expected two keep decisions comparing the recorded and the live nanoseconds, found %d' % len(live))
+    for c in live:
+        brs = [u for u in f.users.get(c.id, ()) if u.op == 'br' and len(u.ops) == 3]
+        if len(brs) != 1:
+            raise AnalysisBroken('scan_file: nanosecond comparison at %s does not steer a branch directly' % c.loc())
+        acc = brs[0].ops[2][1]
+        alts = []
+        for pb in f.pred[acc]:
+            t = f.term(pb)
+            if t.op == 'br' and len(t.ops) == 3:
+                e = f.expr(t.ops[0]).replace(' ', '')
+                pol = t.ops[2][1] == acc
+                alts.append((e, pol, t))
+            else:
+                alts.append(('<unconditional from %s>' % f.bname[pb], True, t))
+        bad = []
+        for e, pol, t in alts:
+            ci = f.inst_of(t.ops[0]) if t.op == 'br' and len(t.ops) == 3 else None
+            ok = ci is not None and ci.op == 'icmp' and ci.pred == 'eq' and pol and f.expr(ci.ops[0]).endswith('->mtime_nsec') and \
+                (ci.id == c.id or f.const_of(ci.ops[1]) == -1) and f.expr(ci.ops[0]) == f.expr(c.ops[0])
+            if not ok:
+                bad.append(e + ('' if pol else ' [false edge]'))
+        rep.check(not bad, rid, 'scan_file keep decision at line %s: the nanosecond test accepts only equality or a recorded STAT_NSEC_INVALID' % c.line, c.loc(),
+                  'alternatives entering the accepting block: %s%s' % ([a[0] for a in alts], '; not allowed: %s' % bad if bad else ''), function='scan_file', construct='nsec alternatives')
+
+
 def run(ctx, rep):
     P = ctx.prog
     rep.explanation = ('Scan classification over all operation sequences is behaviour over run-time directory contents: NOT decided. Decided: (1) every site that decides "this is the recorded file, unchanged" compares at '
@@ -60,6 +93,8 @@ def run(ctx, rep):
     kind = any('link_flag' in c and 'link_flag_get(' in c for c in conds)
     # both belong to the same decision: the kind test dominates or is dominated by the target test
     rep.check(tgt and kind, 'R-C11-1l', 'scan_link compares linkto and link kind', sl.file, 'target compared: %s; kind compared: %s' % (tgt, kind), function='scan_link', construct='link attribute set')
+    rep.rule('R-C11-1a', 'scan_file: each keep decision accepts a nanosecond mismatch only when the recorded value is STAT_NSEC_INVALID', 2)
+    nsec_alternatives(P, rep, 'R-C11-1a')
     # NSEC_INVALID acceptance
     inv_sites = []
     for f in P.defined():
